@@ -527,7 +527,7 @@ func RunCheck(cs *CheckSpec) int {
 				nBefore = e.Units(rf)
 			}
 			min, tries := rf, 0
-			if rf.Script != nil {
+			if rf.Script != nil && os.Getenv("VERIF_NO_MINIMISE") == "" {
 				min, tries = Minimise(e, rf, b.Opt, scratch, budget)
 			}
 			min.Note = fmt.Sprintf("found by seed %d in batch %q; %d runs of the batch ended in this signature; minimised %d -> %d script entries in %d replays",
